@@ -341,24 +341,31 @@ def r_builder_order(model, rep):
 def r_jsoncfg(model, rep):
     n = 0
     for f in model.all_functions():
-        for node in ast.walk(f.node):
-            if isinstance(node, ast.Call) and dotted(node.func) in ("json.dump", "json.dumps"):
-                n += 1
-                kw = dict((k.arg, k.value) for k in node.keywords)
-                ok, msg = True, ""
-                try:
-                    if model.fold(kw.get("sort_keys", ast.Constant(False)), f.module) is not True:
-                        ok, msg = False, "sort_keys=True missing"
-                    if model.fold(kw.get("indent", ast.Constant(None)), f.module) != 4:
-                        ok, msg = False, "indent=4 missing"
-                    sep = model.fold(kw["separators"], f.module) if "separators" in kw else None
-                    if sep is not None and tuple(sep) != (",", ": "):
-                        ok, msg = False, "separators must be (',', ': ')"
-                    if any(k not in ("sort_keys", "indent", "separators") for k in kw):
-                        ok, msg = False, "unexpected json.dump options %s" % sorted(kw)
-                except NotConst:
-                    ok, msg = False, "json.dump options are not constants"
-                rep.ob("R-JSONCFG", "%s:json.dump" % f.qname, ok, site=f.module.site(node), msg=msg)
+        if not any(isinstance(node, ast.Call) and dotted(node.func) in ("json.dump", "json.dumps") for node in ast.walk(f.node)):
+            continue
+        cx = facts.fctx(model, f)
+        for ev in cx.events:
+            if ev.kind != "call" or ev.value[1] not in (("global", "json.dump"), ("global", "json.dumps")):
+                continue
+            n += 1
+            # the options as the call receives them (literal keywords, ** of a literal or of a constant table alike)
+            kw = dict(ev.value[3])
+            ok, msg = True, ""
+            try:
+                if "**" in kw:
+                    raise NotConst("**options")
+                if cx.const_of(kw.get("sort_keys", ("const", False))) is not True:
+                    ok, msg = False, "sort_keys=True missing"
+                if cx.const_of(kw.get("indent", ("const", None))) != 4:
+                    ok, msg = False, "indent=4 missing"
+                sep = cx.const_of(kw["separators"]) if "separators" in kw else None
+                if sep is not None and tuple(sep) != (",", ": "):
+                    ok, msg = False, "separators must be (',', ': ')"
+                if any(k not in ("sort_keys", "indent", "separators") for k in kw):
+                    ok, msg = False, "unexpected json.dump options %s" % sorted(kw)
+            except NotConst:
+                ok, msg = False, "json.dump options are not constants"
+            rep.ob("R-JSONCFG", "%s:json.dump" % f.qname, ok, site=cx.site(ev.lineno), msg=msg)
     if n < 2:
         raise AnalysisError("vacuity guard: %d json.dump sites (floor 2)" % n)
 
